@@ -2,6 +2,7 @@ package astvalidation
 
 import (
 	"bytes"
+	"fmt"
 
 	"github.com/wundergraph/graphql-go-tools/v2/pkg/ast"
 	"github.com/wundergraph/graphql-go-tools/v2/pkg/astimport"
@@ -43,6 +44,15 @@ func (v *valuesVisitor) EnterDocument(operation, definition *ast.Document) {
 func (v *valuesVisitor) EnterVariableDefinition(ref int) {
 	if !v.operation.VariableDefinitionHasDefaultValue(ref) {
 		return // variable has no default value, deep type check not required
+	}
+
+	if v.operation.ValueContainsVariable(v.operation.VariableDefinitions[ref].DefaultValue.Value) {
+		// a default value is a constant: a variable may not be used in it, not even inside a list or an object
+		v.StopWithExternalErr(operationreport.ExternalError{
+			Message:   fmt.Sprintf("default value of variable \"$%s\" must be a constant but contains a variable", v.operation.VariableDefinitionNameBytes(ref)),
+			Locations: operationreport.LocationsFromPosition(v.operation.VariableDefinitions[ref].DefaultValue.Value.Position),
+		})
+		return
 	}
 
 	v.valueSatisfiesOperationType(v.operation.VariableDefinitions[ref].DefaultValue.Value, v.operation.VariableDefinitions[ref].Type)
